@@ -49,6 +49,12 @@ func rawCursorStrings(r *hx.Rand) []string {
 		"FA==", "FA=", "FA\n", "F A", "FA+/", "-_-_", "FAAA", "1AEA", // padding, whitespace, std alphabet, trailing bytes, ext
 		"ŧ", "日本", strings.Repeat("A", 200),
 	}
+	// well-formed and ill-formed encodings of the struct-typed cursor
+	out = append(out,
+		emitAny(map[string]any{"K": 25}), emitAny(map[string]any{"K": 25, "P": "zzz"}), emitAny(map[string]any{"K": 20, "P": ""}),
+		emitAny(map[string]any{"K": "x", "P": "p"}), emitAny(map[string]any{"K": 25, "Q": 1}), emitAny(map[string]any{"P": "p"}),
+		emitAny(map[string]any{"K": 2.5}), emitAny(map[string]any{"K": nil}), emitAny(map[string]any{}), emitAny([]any{25, "p"}),
+		emitAny(map[string]any{"K": uint64(1) << 63}), emitAny(map[string]any{"K": -7, "P": "p", "Z": []int{1}}), emitAny(25), emitAny("25"))
 	// corruptions of real cursors
 	for _, c := range []int{10, 20, 300, -7, 70000} {
 		s := emit(c)
@@ -121,14 +127,14 @@ func main() {
 	// ---- codec round trips
 	for _, v := range []int{0, 1, -1, 31, -32, -33, 127, 128, 255, 256, -128, -129, 32767, 32768, 65535, 65536, -32768, -32769,
 		1<<31 - 1, 1 << 31, -(1 << 31), -(1 << 31) - 1, 1<<32 - 1, 1 << 32, 1<<53 + 1, 1<<63 - 1, -(1 << 63)} {
-		h.check(Case{Kind: "codec", Codec: ip(v)})
+		h.check(Case{Kind: "codec", Codec: &cur{v, pad(v)}})
 	}
 	for i := 0; i < run.Scale(300, 5000); i++ {
 		v := int(R.Uint64() >> uint(R.Intn(64)))
 		if R.Bool() {
 			v = -v
 		}
-		h.check(Case{Kind: "codec", Codec: ip(v)})
+		h.check(Case{Kind: "codec", Codec: &cur{v, hx.Pick(R, []string{"", "p", "pp", "ü", "a b", strings.Repeat("q", R.Intn(40))})}})
 	}
 
 	// ---- (i) pagination.EdgesToReturn, exhaustive
